@@ -27,18 +27,31 @@
 #include <fcppt/enum/size_type.hpp>
 #include <fcppt/iterator/adapt_range.hpp>
 #include <fcppt/iterator/make_range.hpp>
+#include <fcppt/iterator/range_comparison.hpp>
 #include <fcppt/iterator/range_impl.hpp>
+#include <fcppt/iterator/base_impl.hpp>
+#include <fcppt/int_iterator_impl.hpp>
+#include <fcppt/enum/iterator_impl.hpp>
+#include <fcppt/container/grid/spiral_iterator_impl.hpp>
+#include <fcppt/container/grid/spiral_range_impl.hpp>
+#include <fcppt/tuple/get.hpp>
+#include <fcppt/math/int_range.hpp>
 #include <fcppt/math/int_range_count.hpp>
+#include <fcppt/range/empty.hpp>
+#include <fcppt/range/from_pair.hpp>
+#include <fcppt/range/singular.hpp>
 #include <fcppt/range/size.hpp>
 #include <fcppt/type_iso/strong_typedef.hpp>
 #include <fcppt/type_iso/undecorate.hpp>
 
+#include <algorithm>
 #include <cstdint>
 #include <iterator>
 #include <limits>
 #include <list>
 #include <string>
 #include <type_traits>
+#include <utility>
 #include <vector>
 
 namespace
@@ -50,6 +63,10 @@ FCPPT_MAKE_STRONG_TYPEDEF(std::int8_t, si8);
 FCPPT_MAKE_STRONG_TYPEDEF(std::uint8_t, su8);
 FCPPT_MAKE_STRONG_TYPEDEF(std::int32_t, si32);
 FCPPT_MAKE_STRONG_TYPEDEF(std::uint32_t, su32);
+FCPPT_MAKE_STRONG_TYPEDEF(std::int16_t, si16);
+FCPPT_MAKE_STRONG_TYPEDEF(std::uint16_t, su16);
+FCPPT_MAKE_STRONG_TYPEDEF(std::int64_t, si64);
+FCPPT_MAKE_STRONG_TYPEDEF(std::uint64_t, su64);
 
 std::string i128_str(__int128 v)
 {
@@ -123,6 +140,10 @@ template <typename Int, typename U, bool Strong>
 std::string range_line(fcppt::int_range<Int> const &r, __int128 const b, __int128 const e)
 {
   static_assert(std::is_same_v<typename fcppt::int_range<Int>::size_type, U>);
+  static_assert(std::is_same_v<typename fcppt::int_range<Int>::value_type, Int>);
+  static_assert(std::is_same_v<typename fcppt::int_range<Int>::iterator, fcppt::int_iterator<Int>>);
+  static_assert(std::is_same_v<typename fcppt::int_range<Int>::const_iterator, fcppt::int_iterator<Int>>);
+  static_assert(std::is_same_v<typename std::iterator_traits<fcppt::int_iterator<Int>>::iterator_category, std::input_iterator_tag>);
   std::vector<U> vals;
   vals.reserve(cap);
   bool overrun = false;
@@ -154,7 +175,14 @@ std::string range_line(fcppt::int_range<Int> const &r, __int128 const b, __int12
     if (!overrun)
       rs = num(fcppt::range::size(r));
   }
-  return res + " rs=" + rs;
+  // begin() / end() observed directly: the clamp of the constructor is visible in *end()
+  res += " rs=" + rs + " be=" + num(fcppt::type_iso::undecorate(*r.begin())) + ":" + num(fcppt::type_iso::undecorate(*r.end()));
+  // range::empty / range::singular (singular increments a copy of begin(): never at the maximum, because the range is not empty then)
+  res += std::string(" es=") + (fcppt::range::empty(r) ? "1" : "0");
+  if constexpr (Strong) // std::next(int_iterator<strong typedef>) does not compile: the difference_type is the strong typedef
+    return res + "-";
+  else
+    return res + (fcppt::range::singular(r) ? "1" : "0");
 }
 
 template <typename Int, typename U, bool Strong>
@@ -162,7 +190,83 @@ std::string ir_line(__int128 const b, __int128 const e)
 {
   if (!fits<U>(b) || !fits<U>(e))
     return "bad-op";
-  return range_line<Int, U, Strong>(fcppt::make_int_range(Int(static_cast<U>(b)), Int(static_cast<U>(e))), b, e);
+  // the constructor called directly must agree with make_int_range
+  fcppt::int_range<Int> const direct(Int(static_cast<U>(b)), Int(static_cast<U>(e)));
+  fcppt::int_range<Int> const made{fcppt::make_int_range(Int(static_cast<U>(b)), Int(static_cast<U>(e)))};
+  if (!(direct.begin() == made.begin()) || direct.end() != made.end())
+    return "ctor-mismatch";
+  return range_line<Int, U, Strong>(made, b, e);
+}
+
+// the operations of iterator::base on an input iterator used directly: It is int_iterator<Int> or enum_::iterator<E>,
+// mk makes one from a number, shw prints one
+template <typename It, typename Mk, typename Shw>
+std::string iter_ops_line(Mk const &mk, Shw const &shw, bool const incr_is_ub, __int128 const a, __int128 const b)
+{
+  It const ia{mk(a)}, ib{mk(b)};
+  // the public members the operators are made of, called directly
+  if (ia.equal(ib) != (ia == ib) || ib.equal(ia) != (ib == ia) || !ia.equal(ia))
+    return "equal-mismatch";
+  std::string r = std::string("eq=") + (ia == ib ? "1" : "0") + " ne=" + (ia != ib ? "1" : "0") + " self=" + (ia == ia ? "1" : "0") +
+                  (ia != ia ? "1" : "0") + " d=" + shw(ia) + "," + shw(ib) + " post=";
+  if (incr_is_ub)
+    r += "ub";
+  else
+  {
+    It x{ia};
+    It const old{x++};
+    It y{ia};
+    It &ref{++y};
+    It w{ia};
+    w.increment();
+    r += shw(old) + ">" + shw(x) + (&ref == &y && y == x && w == x ? "" : "!pre");
+  }
+  It x{ia}, y{ib};
+  x.swap(y);
+  r += " sw=" + shw(x) + "," + shw(y);
+  fcppt::iterator::swap(x, y);
+  r += " fsw=" + shw(x) + "," + shw(y);
+  x.swap(x);
+  r += " ssw=" + shw(x);
+  return r;
+}
+
+template <typename Int, typename U>
+std::string iit_line(__int128 const a, __int128 const b)
+{
+  if (!fits<U>(a) || !fits<U>(b))
+    return "bad-op";
+  using it = fcppt::int_iterator<Int>;
+  bool const ub = std::is_signed_v<U> && sizeof(U) >= sizeof(int) && a == static_cast<__int128>(std::numeric_limits<U>::max());
+  return iter_ops_line<it>(
+      [](__int128 const v) { return it(Int(static_cast<U>(v))); },
+      [](it const &i) { return num(fcppt::type_iso::undecorate(*i)); },
+      ub,
+      a,
+      b);
+}
+
+template <typename Int, typename U>
+std::string itri_line(__int128 const b, __int128 const e)
+{
+  if (!fits<U>(b) || !fits<U>(e))
+    return "bad-op";
+  if (std::is_signed_v<U> && sizeof(U) >= sizeof(int) && e < b)
+    return "bad-op";
+  using it = fcppt::int_iterator<Int>;
+  auto const r = fcppt::iterator::make_range(it(Int(static_cast<U>(b))), it(Int(static_cast<U>(e))));
+  std::vector<U> vals;
+  vals.reserve(cap);
+  for (Int const v : r)
+  {
+    if (vals.size() == cap)
+      return "overrun";
+    vals.push_back(fcppt::type_iso::undecorate(v));
+  }
+  std::vector<std::string> out;
+  for (U const v : vals)
+    out.push_back(num(v));
+  return "n=" + std::to_string(out.size()) + " e=" + join_str(out);
 }
 
 template <typename Int, typename U, bool Strong>
@@ -184,6 +288,25 @@ std::string ir_ops(std::vector<std::string> const &t)
     if (!fits<U>(n))
       return "bad-op";
     return range_line<Int, U, Strong>(fcppt::make_int_range_count(Int(static_cast<U>(n))), 0, n);
+  }
+  if (t[0] == "iit" && t.size() == 4)
+    return iit_line<Int, U>(parse(t[2]), parse(t[3]));
+  if (t[0] == "itri" && t.size() == 4)
+    return itri_line<Int, U>(parse(t[2]), parse(t[3]));
+  if ((t[0] == "iits" || t[0] == "itris") && t.size() == 3)
+  {
+    if constexpr (sizeof(U) <= 2)
+    {
+      __int128 const a = parse(t[2]);
+      if (!fits<U>(a))
+        return "bad-op";
+      std::uint64_t h = vh::fnv_init;
+      for (int e = std::numeric_limits<U>::min(); e <= std::numeric_limits<U>::max(); ++e)
+        h = vh::fnv(h, t[0] == "iits" ? iit_line<Int, U>(a, e) : itri_line<Int, U>(a, e));
+      return "D " + vh::hex64(h);
+    }
+    else
+      return "bad-op";
   }
   if (t[0] == "irs" && t.size() == 3)
   {
@@ -220,6 +343,10 @@ std::string ir_dispatch(std::vector<std::string> const &t)
   if (ty == "su8") return ir_ops<su8, std::uint8_t, true>(t);
   if (ty == "si32") return ir_ops<si32, std::int32_t, true>(t);
   if (ty == "su32") return ir_ops<su32, std::uint32_t, true>(t);
+  if (ty == "si16") return ir_ops<si16, std::int16_t, true>(t);
+  if (ty == "su16") return ir_ops<su16, std::uint16_t, true>(t);
+  if (ty == "si64") return ir_ops<si64, std::int64_t, true>(t);
+  if (ty == "su64") return ir_ops<su64, std::uint64_t, true>(t);
   return "bad-op";
 }
 
@@ -237,6 +364,11 @@ enum class e9 : std::uint8_t { v0, v1, v2, v3, v4, v5, v6, v7, v8, fcppt_maximum
 // the boundary of the size_type: 256 enumerators over an 8-bit type
 enum class e256 : std::uint8_t { v0 = 0, fcppt_maximum = 255 };
 
+// the constexpr members in constant expressions.  int_range<Int>::size() is declared constexpr but calls the non-constexpr
+// type_iso::undecorate, so it can never be evaluated at compile time (observation, notes/C18.md); the constructor can.
+[[maybe_unused]] constexpr fcppt::int_range<int> constexpr_int_range(4, 1);
+static_assert(fcppt::enum_::range<e5>(1, 4).size() == 3);
+
 template <typename E>
 std::string enum_line(fcppt::enum_::range<E> const &r)
 {
@@ -252,7 +384,7 @@ std::string enum_line(fcppt::enum_::range<E> const &r)
     out.push_back(num(fcppt::cast::enum_to_int<fcppt::enum_::size_type<E>>(v)));
   }
   return (overrun ? std::string("overrun") : "n=" + std::to_string(out.size()) + " e=" + join_str(out)) +
-         " size=" + num(r.size());
+         " size=" + num(r.size()) + " es=" + (fcppt::range::empty(r) ? "1" : "0") + (fcppt::range::singular(r) ? "1" : "0");
 }
 
 template <typename E, unsigned N>
@@ -278,6 +410,34 @@ std::string enum_ops(std::vector<std::string> const &t)
   }
   if (t[0] == "era" && t.size() == 3)
     return enum_line<E>(fcppt::enum_::make_range<E>());
+  unsigned long long const lim = sizeof(st) >= 8 ? ~0ULL : (1ULL << (sizeof(st) * 8U)) - 1ULL;
+  if (t[0] == "erd" && t.size() == 5)
+  {
+    auto const b = vh::to_ull(t[3]), e = vh::to_ull(t[4]);
+    if (b > lim || e > lim)
+      return "bad-op";
+    return enum_line<E>(fcppt::enum_::range<E>(static_cast<st>(b), static_cast<st>(e)));
+  }
+  if (t[0] == "eit" && t.size() == 5)
+  {
+    auto const a = vh::to_ull(t[3]), b = vh::to_ull(t[4]);
+    if (a > N || b > N || a > lim || b > lim)
+      return "bad-op";
+    using it = fcppt::enum_::iterator<E>;
+    // an iterator is shown as the number v <= N with it == iterator(v) (values above N are no enumerators: never dereferenced)
+    auto const shw = [lim](it const &i) -> std::string
+    {
+      for (unsigned long long v = 0; v <= N && v <= lim; ++v)
+        if (i == it(static_cast<st>(v)))
+        {
+          if (v < N && fcppt::cast::enum_to_int<st>(*i) != static_cast<st>(v))
+            return "deref-mismatch";
+          return std::to_string(v);
+        }
+      return "?";
+    };
+    return iter_ops_line<it>([](__int128 const v) { return it(static_cast<st>(v)); }, shw, false, static_cast<__int128>(a), static_cast<__int128>(b));
+  }
   return "bad-op";
 }
 
@@ -334,14 +494,22 @@ std::string cyc_line(std::vector<std::string> const &t)
   iterator d{it0};
   d -= -k;
   iterator const e{k + it0};
-  bool const alt = a == b && a == c && a == d && a == e && a.get() == b.get() && a.get() == c.get() && a.get() == d.get() && a.get() == e.get();
+  iterator g{it0};
+  g.advance(k); // the public member behind += called directly
+  bool const alt = a == b && a == c && a == d && a == e && a.get() == b.get() && a.get() == c.get() && a.get() == d.get() && a.get() == e.get() &&
+                   g.get() == a.get() && a.equal(g) && it0.distance_to(a) == a - it0 && a.dereference() == *a;
   iterator st{it0};
   for (long long i = 0; i < (k < 0 ? -k : k); ++i)
   {
+    // alternate between the operators and the public members behind them
     if (k < 0)
-      --st;
+    {
+      if (i % 2 == 0) --st; else st.decrement();
+    }
     else
-      ++st;
+    {
+      if (i % 2 == 0) ++st; else st.increment();
+    }
   }
   auto const idx = [&v](iterator const &i) { return static_cast<long long>(i.get() - v.begin()); };
   bool const inb = f <= idx(a) && idx(a) < s && f <= idx(st) && idx(st) < s;
@@ -352,10 +520,19 @@ std::string cyc_line(std::vector<std::string> const &t)
 }
 
 template <typename C, bool RandomAccess>
-std::string cycw_line(std::vector<std::string> const &t)
+std::string cycw_line(std::vector<std::string> const &t, bool const relaxed)
 {
   long long const len = vh::to_ll(t[2]), f = vh::to_ll(t[3]), s = vh::to_ll(t[4]), start = vh::to_ll(t[5]);
-  if (!(0 <= f && f < s && s <= len && f <= start && start < s && len <= 64))
+  if (relaxed)
+  {
+    // any position, any boundary f <= s (also empty); a margin of one position per operation on both sides keeps every
+    // container iterator that can be produced valid
+    long long const n = static_cast<long long>(t.size()) - 6;
+    long long const lo = std::min(start, std::min(f, s)), hi = std::max(start, std::max(f, s));
+    if (!(0 <= f && f <= s && len <= 64 && 0 <= start && n >= 1 && n <= lo && hi + n <= len))
+      return "bad-op";
+  }
+  else if (!(0 <= f && f < s && s <= len && f <= start && start < s && len <= 64))
     return "bad-op";
   C const c{make_container<C>(static_cast<std::size_t>(len))};
   using iterator = fcppt::cyclic_iterator<typename C::const_iterator>;
@@ -363,14 +540,16 @@ std::string cycw_line(std::vector<std::string> const &t)
   iterator it{at(start), typename iterator::boundary{at(f), at(s)}};
   auto const idx = [&c](iterator const &i) { return std::to_string(static_cast<long long>(std::distance(c.begin(), i.get()))); };
   std::vector<std::string> tr;
+  // the operators that return *this must return a reference to the very object
+  auto const same = [&it](iterator const &r) { return &r == &it ? std::string() : std::string("!ref"); };
   for (std::size_t k = 6; k < t.size(); ++k)
   {
     std::string const &o = t[k];
     char const ch = o[0];
     if ((ch == '+' || ch == '-' || ch == 'p' || ch == 'm') && o.size() == 1)
     {
-      if (ch == '+') { ++it; tr.push_back(idx(it)); }
-      else if (ch == '-') { --it; tr.push_back(idx(it)); }
+      if (ch == '+') { std::string const r{same(++it)}; tr.push_back(idx(it) + r); }
+      else if (ch == '-') { std::string const r{same(--it)}; tr.push_back(idx(it) + r); }
       else if (ch == 'p') { iterator const old{it++}; tr.push_back(idx(old) + ">" + idx(it)); }
       else { iterator const old{it--}; tr.push_back(idx(old) + ">" + idx(it)); }
     }
@@ -379,8 +558,8 @@ std::string cycw_line(std::vector<std::string> const &t)
       if constexpr (RandomAccess)
       {
         long long const n = vh::to_ll(o.substr(1));
-        if (ch == 'a') { it += n; tr.push_back(idx(it)); }
-        else if (ch == 's') { it -= n; tr.push_back(idx(it)); }
+        if (ch == 'a') { std::string const r{same(it += n)}; tr.push_back(idx(it) + r); }
+        else if (ch == 's') { std::string const r{same(it -= n)}; tr.push_back(idx(it) + r); }
         else tr.push_back("v" + std::to_string(it[n]));
       }
       else
@@ -390,6 +569,174 @@ std::string cycw_line(std::vector<std::string> const &t)
       return "bad-op";
   }
   return join_str(tr);
+}
+
+struct cell
+{
+  int v;
+  int w;
+};
+
+// two cyclic iterators at arbitrary positions of one container, each with its own (possibly empty) boundary
+std::string cycp_line(std::vector<std::string> const &t)
+{
+  if (t.size() != 8)
+    return "bad-op";
+  long long const len = vh::to_ll(t[1]), f1 = vh::to_ll(t[2]), s1 = vh::to_ll(t[3]), i = vh::to_ll(t[4]), f2 = vh::to_ll(t[5]),
+                  s2 = vh::to_ll(t[6]), j = vh::to_ll(t[7]);
+  if (!(0 <= f1 && f1 <= s1 && s1 <= len && 0 <= i && i <= len && 0 <= f2 && f2 <= s2 && s2 <= len && 0 <= j && j <= len && len <= 64))
+    return "bad-op";
+  std::vector<cell> c;
+  for (long long k = 0; k < len; ++k)
+    c.push_back(cell{static_cast<int>(3 * k + 1), static_cast<int>(k)});
+  using cit = std::vector<cell>::const_iterator;
+  using iterator = fcppt::cyclic_iterator<cit>;
+  iterator x{c.cbegin() + i, iterator::boundary{c.cbegin() + f1, c.cbegin() + s1}};
+  iterator y{c.cbegin() + j, iterator::boundary{c.cbegin() + f2, c.cbegin() + s2}};
+  auto const b = [](bool const v) { return v ? "1" : "0"; };
+  auto const pos = [&c](cit const p) { return std::to_string(static_cast<long long>(p - c.cbegin())); };
+  auto const show = [&pos](iterator const &k)
+  { return pos(k.get()) + ":" + pos(fcppt::tuple::get<0>(k.get_boundary())) + ":" + pos(fcppt::tuple::get<1>(k.get_boundary())); };
+  iterator const &cx{x};
+  iterator const &cy{y};
+  std::string r = std::string("cmp=") + b(cx == cy) + b(cx != cy) + b(cx < cy) + b(cx > cy) + b(cx <= cy) + b(cx >= cy);
+  r += " d=" + std::to_string(static_cast<long long>(cy - cx)) + "," + std::to_string(static_cast<long long>(cx - cy));
+  r += std::string(" self=") + b(cx == cx) + b(cx != cx) + b(cx < cx) + b(cx > cx) + b(cx <= cx) + b(cx >= cx) + "," +
+       std::to_string(static_cast<long long>(cx - cx));
+  r += " get=" + pos(cx.get()) + "," + pos(cy.get());
+  r += " bnd=" + pos(fcppt::tuple::get<0>(cx.get_boundary())) + ":" + pos(fcppt::tuple::get<1>(cx.get_boundary())) + "," +
+       pos(fcppt::tuple::get<0>(cy.get_boundary())) + ":" + pos(fcppt::tuple::get<1>(cy.get_boundary()));
+  if (i < len)
+  {
+    if (cx->w != static_cast<int>(i) || (*cx).v != cx->v)
+      return "arrow-mismatch";
+    r += " val=" + std::to_string(cx->v);
+  }
+  else
+    r += " val=-";
+  if (i < len)
+  {
+    // a cyclic iterator over mutable iterators refers to the element itself
+    using miterator = fcppt::cyclic_iterator<std::vector<cell>::iterator>;
+    miterator const m{c.begin() + i, miterator::boundary{c.begin() + f1, c.begin() + s1}};
+    m->v = -7;
+    (*m).w = -8;
+    if (c[static_cast<std::size_t>(i)].v != -7 || c[static_cast<std::size_t>(i)].w != -8 || cx->v != -7)
+      return "write-through-mismatch";
+  }
+  x.swap(y);
+  r += " sw=" + show(x) + "," + show(y);
+  fcppt::iterator::swap(x, y);
+  r += " fsw=" + show(x) + "," + show(y);
+  x.swap(x);
+  {
+    iterator const &alias{x}; // self-assignment
+    x = alias;
+  }
+  r += " ssw=" + show(x);
+  iterator z{x};
+  if (!(z == x) || show(z) != show(x))
+    return "copy-mismatch";
+  z = y;
+  r += " cp=" + show(z) + "/" + b(z == y);
+  return r;
+}
+
+// it + k / it - k for any 64-bit k
+std::string cycl_line(std::vector<std::string> const &t)
+{
+  if (t.size() != 7)
+    return "bad-op";
+  long long const len = vh::to_ll(t[1]), f = vh::to_ll(t[2]), s = vh::to_ll(t[3]), start = vh::to_ll(t[4]);
+  __int128 const k128 = parse(t[6]);
+  if (!(0 <= f && f < s && s <= len && f <= start && start < s && len <= 64) || !fits<long>(k128) || (t[5] != "+" && t[5] != "-"))
+    return "bad-op";
+  long const k = static_cast<long>(k128);
+  ivec const v{make_container<ivec>(static_cast<std::size_t>(len))};
+  using iterator = fcppt::cyclic_iterator<ivec::const_iterator>;
+  iterator const it0{v.begin() + start, iterator::boundary{v.begin() + f, v.begin() + s}};
+  auto const idx = [&v](iterator const &i) { return static_cast<long long>(i.get() - v.begin()); };
+  if (t[5] == "+")
+  {
+    iterator const a{it0 + k};
+    iterator b{it0};
+    b += k;
+    iterator const c{k + it0};
+    return "adv=" + std::to_string(idx(a)) + " alt=" + (a == b && a == c ? "1" : "0");
+  }
+  iterator const a{it0 - k};
+  iterator b{it0};
+  b -= k;
+  return "adv=" + std::to_string(idx(a)) + " alt=" + (a == b ? "1" : "0");
+}
+
+// converting constructor / assignment: cyclic_iterator<iterator> -> cyclic_iterator<const_iterator>
+template <typename C, bool RandomAccess>
+std::string cycc_line(std::vector<std::string> const &t)
+{
+  if (t.size() != 10)
+    return "bad-op";
+  long long const len = vh::to_ll(t[2]), f = vh::to_ll(t[3]), s = vh::to_ll(t[4]), i = vh::to_ll(t[5]), f2 = vh::to_ll(t[6]), s2 = vh::to_ll(t[7]),
+                  j = vh::to_ll(t[8]), k = vh::to_ll(t[9]);
+  if (!(0 <= f && f < s && s <= len && f <= i && i < s && 0 <= f2 && f2 <= s2 && s2 <= len && 0 <= j && j <= len && len <= 64 && -1000 <= k && k <= 1000))
+    return "bad-op";
+  C c{make_container<C>(static_cast<std::size_t>(len))};
+  using mit = typename C::iterator;
+  using cit = typename C::const_iterator;
+  using miterator = fcppt::cyclic_iterator<mit>;
+  using citerator = fcppt::cyclic_iterator<cit>;
+  auto const mat = [&c](long long const p) { return std::next(c.begin(), p); };
+  auto const cat = [&c](long long const p) { return std::next(c.cbegin(), p); };
+  auto const pos = [&c](cit const p) { return std::to_string(static_cast<long long>(std::distance(c.cbegin(), p))); };
+  auto const show = [&pos](citerator const &q)
+  { return pos(q.get()) + ":" + pos(fcppt::tuple::get<0>(q.get_boundary())) + ":" + pos(fcppt::tuple::get<1>(q.get_boundary())); };
+  miterator x{mat(i), typename miterator::boundary{mat(f), mat(s)}};
+  citerator y{x}; // converting constructor
+  citerator z{};
+  citerator &zr{z = x}; // converting assignment into a default-constructed iterator
+  citerator w{cat(j), typename citerator::boundary{cat(f2), cat(s2)}};
+  w = x; // ... over an existing iterator with another boundary
+  citerator same{};
+  same.template operator=<cit>(y); // OtherIterator = ContainerIterator
+  std::string r = "cv=" + show(y) + " as=" + show(z) + (&zr == &z ? "" : "!ref") + " ow=" + show(w) + " st=" + show(same) + " eq=" + (y == z ? "1" : "0");
+  citerator a{y};
+  if constexpr (RandomAccess)
+    a += k;
+  else
+    for (long long n = 0; n < (k < 0 ? -k : k); ++n)
+    {
+      if (k < 0)
+        --a;
+      else
+        ++a;
+    }
+  r += " adv=" + pos(a.get());
+  ++x;
+  return r + " src=" + pos(x.get()) + ":" + pos(y.get());
+}
+
+// the default constructor
+template <typename C>
+std::string cycd_line(std::vector<std::string> const &t)
+{
+  if (t.size() != 6)
+    return "bad-op";
+  long long const len = vh::to_ll(t[2]), i = vh::to_ll(t[3]), f = vh::to_ll(t[4]), s = vh::to_ll(t[5]);
+  if (!(0 <= f && f <= s && s <= len && 0 <= i && i <= len && len <= 64))
+    return "bad-op";
+  C const c{make_container<C>(static_cast<std::size_t>(len))};
+  using cit = typename C::const_iterator;
+  using iterator = fcppt::cyclic_iterator<cit>;
+  iterator d{};
+  iterator const d2{};
+  auto const b = [](bool const v) { return v ? "1" : "0"; };
+  std::string r = std::string("def=") + b(d.get() == cit{}) + b(fcppt::tuple::get<0>(d.get_boundary()) == cit{}) +
+                  b(fcppt::tuple::get<1>(d.get_boundary()) == cit{}) + " eq=" + b(d == d2);
+  auto const at = [&c](long long const k) { return std::next(c.begin(), k); };
+  iterator const x{at(i), typename iterator::boundary{at(f), at(s)}};
+  d = x;
+  auto const pos = [&c](cit const p) { return std::to_string(static_cast<long long>(std::distance(c.begin(), p))); };
+  return r + " asg=" + pos(d.get()) + ":" + pos(fcppt::tuple::get<0>(d.get_boundary())) + ":" + pos(fcppt::tuple::get<1>(d.get_boundary()));
 }
 
 // ------------------------------------------------------------------ grid: spiral, neighbours
@@ -404,9 +751,8 @@ template <typename T>
 std::string sp_line(std::vector<std::string> const &t)
 {
   __int128 const x = parse(t[2]), y = parse(t[3]), d = parse(t[4]);
-  // keep the walk far away from the limits of T (the model computes in unbounded integers)
-  __int128 const lim = static_cast<__int128>(std::numeric_limits<T>::max()) - 20000;
-  if (x > lim || x < -lim || y > lim || y < -lim || d > 10000 || d < -10000)
+  // any origin: where the walk (or end()) leaves the coordinate type the model says signed-overflow and UBSan stops the harness
+  if (!fits<T>(x) || !fits<T>(y) || d > 10000 || d < -10000)
     return "bad-op";
   using pos = fcppt::container::grid::pos<T, 2>;
   std::vector<std::string> out;
@@ -417,6 +763,56 @@ std::string sp_line(std::vector<std::string> const &t)
     out.push_back(pos_str(p));
   }
   return "n=" + std::to_string(out.size()) + " p=" + join_str(out);
+}
+
+// spiral_iterator used directly: n steps alternating ++it / it++, comparison with end() and with an iterator of another max_dist, swap
+template <typename T>
+std::string spi_line(std::vector<std::string> const &t)
+{
+  __int128 const x = parse(t[2]), y = parse(t[3]), d = parse(t[4]);
+  unsigned long long const n = vh::to_ull(t[5]);
+  __int128 const lim = static_cast<__int128>(std::numeric_limits<T>::max()) - 20000;
+  if (x > lim || x < -lim || y > lim || y < -lim || d > 10000 || d < -10000 || n > 300)
+    return "bad-op";
+  using pos = fcppt::container::grid::pos<T, 2>;
+  using iterator = fcppt::container::grid::spiral_iterator<pos>;
+  pos const origin(static_cast<T>(x), static_cast<T>(y));
+  fcppt::container::grid::spiral_range<pos> const range(origin, static_cast<T>(d));
+  iterator const end{range.end()};
+  iterator const init(origin, static_cast<T>(d));
+  if (!(init == range.begin()) || init != fcppt::container::grid::make_spiral_range(origin, static_cast<T>(d)).begin())
+    return "begin-mismatch";
+  iterator it{init};
+  std::vector<std::string> steps, ends;
+  if (it == end)
+    ends.push_back("0");
+  for (unsigned long long k = 1; k <= n; ++k)
+  {
+    if (k % 2U == 1U)
+    {
+      iterator &r{++it};
+      if (&r != &it)
+        return "ref-mismatch";
+      steps.push_back(pos_str(*it));
+    }
+    else
+    {
+      iterator const old{it++};
+      steps.push_back(pos_str(*old) + ">" + pos_str(*it));
+    }
+    if (it == end)
+      ends.push_back(std::to_string(k));
+  }
+  iterator const other(origin, static_cast<T>(d + 5));
+  iterator one{init};
+  ++one;
+  std::string r = "p=" + join_str(steps) + " end=" + join_str(ends) + " eqd=" + (init == other ? "1" : "0") + (init != one ? "1" : "0");
+  iterator a{init};
+  a.swap(it);
+  r += " sw=" + pos_str(*a) + "," + pos_str(*it);
+  ++a;
+  ++it;
+  return r + " next=" + pos_str(*a) + "," + pos_str(*it);
 }
 
 template <typename T>
@@ -457,14 +853,35 @@ std::string itr_line(std::vector<std::string> const &t)
   if (!(i <= j && j <= len && len <= 256))
     return "bad-op";
   C c{make_container<C>(len)};
-  // alternate between the constructor, make_range and const / non-const iterators
-  if ((i + j) % 2U == 0U)
+  // alternate between the constructor, make_range, from_pair and const / non-const iterators
+  auto const tail = [](auto const &r)
   {
-    auto const r = fcppt::iterator::make_range(std::next(c.begin(), static_cast<long>(i)), std::next(c.begin(), static_cast<long>(j)));
-    return range_elems(r) + " size=" + num(fcppt::range::size(r));
-  }
+    return range_elems(r) + " size=" + num(fcppt::range::size(r)) + " es=" + (fcppt::range::empty(r) ? "1" : "0") +
+           (fcppt::range::singular(r) ? "1" : "0");
+  };
+  if ((i + j) % 3U == 2U)
+    return tail(fcppt::range::from_pair(std::make_pair(std::next(c.cbegin(), static_cast<long>(i)), std::next(c.cbegin(), static_cast<long>(j)))));
+  if ((i + j) % 2U == 0U)
+    return tail(fcppt::iterator::make_range(std::next(c.begin(), static_cast<long>(i)), std::next(c.begin(), static_cast<long>(j))));
   fcppt::iterator::range<typename C::const_iterator> const r{std::next(c.cbegin(), static_cast<long>(i)), std::next(c.cbegin(), static_cast<long>(j))};
-  return range_elems(r) + " size=" + num(fcppt::range::size(r));
+  return tail(r);
+}
+
+// operator== / != of two ranges over one container, begin() / end()
+template <typename C>
+std::string itrc_line(std::vector<std::string> const &t)
+{
+  unsigned long long const len = vh::to_ull(t[2]), i = vh::to_ull(t[3]), j = vh::to_ull(t[4]), k = vh::to_ull(t[5]), l = vh::to_ull(t[6]);
+  if (!(i <= j && j <= len && k <= l && l <= len && len <= 64))
+    return "bad-op";
+  C const c{make_container<C>(len)};
+  auto const at = [&c](unsigned long long const p) { return std::next(c.begin(), static_cast<long>(p)); };
+  using range = fcppt::iterator::range<typename C::const_iterator>;
+  range const r1{at(i), at(j)};
+  range const r2{fcppt::iterator::make_range(at(k), at(l))};
+  auto const b = [](bool const v) { return v ? "1" : "0"; };
+  auto const pos = [&c](typename C::const_iterator const p) { return std::to_string(static_cast<long long>(std::distance(c.begin(), p))); };
+  return std::string("eq=") + b(r1 == r2) + " ne=" + b(r1 != r2) + " self=" + b(r1 == r1) + b(r1 != r1) + " be=" + pos(r1.begin()) + ":" + pos(r1.end());
 }
 
 template <typename C>
@@ -479,8 +896,16 @@ std::string adr_line(std::vector<std::string> const &t)
   auto const r2 = fcppt::iterator::adapt_range(cc);
   static_assert(std::is_same_v<decltype(r1.begin()), typename C::iterator>);
   static_assert(std::is_same_v<decltype(r2.begin()), typename C::const_iterator>);
-  std::string const a = range_elems(r1) + " size=" + num(fcppt::range::size(r1));
-  std::string const b = range_elems(r2) + " size=" + num(fcppt::range::size(r2));
+  auto const es = [](auto const &r) { return std::string(" es=") + (fcppt::range::empty(r) ? "1" : "0") + (fcppt::range::singular(r) ? "1" : "0"); };
+  std::string const a = range_elems(r1) + " size=" + num(fcppt::range::size(r1)) + es(r1);
+  std::string const b = range_elems(r2) + " size=" + num(fcppt::range::size(r2)) + es(r2);
+  // the non-const range hands out mutable iterators: writing through one changes the container
+  if (len > 0)
+  {
+    *r1.begin() = -5;
+    if (c.front() != -5)
+      return "write-through-mismatch";
+  }
   bool const same_ends = r1.begin() == c.begin() && r1.end() == c.end() && r2.begin() == cc.begin() && r2.end() == cc.end();
   return a == b && same_ends ? a : "adapt-range-inconsistent " + a + " | " + b;
 }
@@ -493,27 +918,69 @@ std::string mirc_line()
   return "e=" + join_str(out);
 }
 
+template <std::size_t A, std::size_t B>
+std::string mir_line()
+{
+  std::vector<std::string> out;
+  fcppt::algorithm::loop(fcppt::math::int_range<A, B>{}, [&out]<typename I>(fcppt::tag<I>) { out.push_back(num(I::value)); });
+  return "e=" + join_str(out);
+}
+
 std::string handle_inner(std::vector<std::string> const &t)
 {
   if (t.empty())
     return "bad-op";
   std::string const &op = t[0];
-  if (op == "ir" || op == "irc" || op == "irs" || op == "irub")
+  if (op == "ir" || op == "irc" || op == "irs" || op == "irub" || op == "iit" || op == "iits" || op == "itri" || op == "itris")
     return ir_dispatch(t);
-  if (op == "er" || op == "ers" || op == "era")
+  if (op == "er" || op == "ers" || op == "era" || op == "erd" || op == "eit")
     return enum_dispatch(t);
   if (op == "cyc")
     return cyc_line(t);
   if (op == "cycw" && t.size() >= 6)
   {
-    if (t[1] == "v") return cycw_line<ivec, true>(t);
-    if (t[1] == "l") return cycw_line<ilist, false>(t);
+    if (t[1] == "v") return cycw_line<ivec, true>(t, false);
+    if (t[1] == "l") return cycw_line<ilist, false>(t, false);
+    return "bad-op";
+  }
+  if (op == "cycx" && t.size() >= 7)
+  {
+    if (t[1] == "v") return cycw_line<ivec, true>(t, true);
+    if (t[1] == "l") return cycw_line<ilist, false>(t, true);
+    return "bad-op";
+  }
+  if (op == "cycp")
+    return cycp_line(t);
+  if (op == "cycl")
+    return cycl_line(t);
+  if (op == "cycc" && t.size() == 10)
+  {
+    if (t[1] == "v") return cycc_line<ivec, true>(t);
+    if (t[1] == "l") return cycc_line<ilist, false>(t);
+    return "bad-op";
+  }
+  if (op == "cycd" && t.size() == 6)
+  {
+    if (t[1] == "v") return cycd_line<ivec>(t);
+    if (t[1] == "l") return cycd_line<ilist>(t);
     return "bad-op";
   }
   if (op == "sp" && t.size() == 5)
   {
     if (t[1] == "i32") return sp_line<std::int32_t>(t);
     if (t[1] == "i64") return sp_line<std::int64_t>(t);
+    return "bad-op";
+  }
+  if (op == "spi" && t.size() == 6)
+  {
+    if (t[1] == "i32") return spi_line<std::int32_t>(t);
+    if (t[1] == "i64") return spi_line<std::int64_t>(t);
+    return "bad-op";
+  }
+  if (op == "itrc" && t.size() == 7)
+  {
+    if (t[1] == "v") return itrc_line<ivec>(t);
+    if (t[1] == "l") return itrc_line<ilist>(t);
     return "bad-op";
   }
   if (op == "nb" && t.size() == 4)
@@ -534,6 +1001,18 @@ std::string handle_inner(std::vector<std::string> const &t)
   {
     if (t[1] == "v") return adr_line<ivec>(t);
     if (t[1] == "l") return adr_line<ilist>(t);
+    return "bad-op";
+  }
+  if (op == "mir" && t.size() == 3)
+  {
+    unsigned long long const a = vh::to_ull(t[1]), b = vh::to_ull(t[2]);
+    if (a == 0 && b == 0) return mir_line<0, 0>();
+    if (a == 0 && b == 3) return mir_line<0, 3>();
+    if (a == 1 && b == 2) return mir_line<1, 2>();
+    if (a == 2 && b == 5) return mir_line<2, 5>();
+    if (a == 3 && b == 3) return mir_line<3, 3>();
+    if (a == 5 && b == 16) return mir_line<5, 16>();
+    if (a == 15 && b == 16) return mir_line<15, 16>();
     return "bad-op";
   }
   if (op == "mirc" && t.size() == 2)
